@@ -270,6 +270,33 @@ def run(ctx):
                         'text': t1[:3000], 'with_comments': r1, 'comments_blanked': r2, 'comments_removed': r3})
             elif (r1[0], r2[0], r3[0]) != (r1[0],) * 3:
                 ctx.violation('acceptance depends on comments', {'text': t1[:3000], 'r': [r1[0], r2[0], r3[0]]})
+    # ---------------- (d) parse_files == parse_string: files ending without a new-line, ending in a comment, several files
+    import tempfile
+    import shutil
+    import asn1tools
+    tmp = tempfile.mkdtemp(prefix='c14-')
+    try:
+        for j, (f, text) in enumerate(cands[:ctx.n(30, 200)]):
+            base = parse_outcome(text)
+            endings = [text.rstrip('\n'), text.rstrip('\n') + ' -- trailing comment', text.rstrip('\n') + ' /* c */', text + '\n\n', text.rstrip('\n') + ' -- a -- ']
+            for k, variant_text in enumerate(endings):
+                pth = os.path.join(tmp, 'f%d_%d.asn' % (j, k))
+                with open(pth, 'w', encoding='utf-8') as fh:
+                    fh.write(variant_text)
+                try:
+                    with core.time_limit(120):
+                        got = ('ok', asn1tools.parse_files([pth]))
+                except asn1tools.ParseError as e:
+                    got = ('ParseError', str(e)[:80])
+                except Exception as e:
+                    got = ('Foreign:' + type(e).__name__, str(e)[:80])
+                ctx.case(('parse_files', variant_text))
+                ctx.count('parse_files.' + got[0])
+                if got[0] != base[0] or (got[0] == 'ok' and got[1] != base[1]):
+                    ctx.violation('parse_files result depends on how the file ends (trailing new-line / comment)',
+                                  {'file_content': variant_text[-400:], 'ending_variant': k, 'parse_string': repr(base)[:200], 'parse_files': repr(got)[:200]})
+    finally:
+        shutil.rmtree(tmp, ignore_errors=True)
     # witnesses of the known finding are replayed on the real code every run
     w = 'A DEFINITIONS ::= BEGIN X ::= OCTET  STRING END'
     r = parse_outcome(w)
